@@ -6,7 +6,9 @@ package vsync
 
 import (
 	"fmt"
+	"runtime"
 	"sort"
+	"strings"
 	"unsafe"
 )
 
@@ -55,8 +57,10 @@ type Sched struct {
 	// scheduling points (first-use scenario).
 	OnlyOnce bool
 
-	// FreshPools: Pool.Get always allocates (an equally legal sync.Pool behaviour).
+	// FreshPools: Pool.Get always allocates (an equally legal sync.Pool behaviour). With FreshOwner set this applies only
+	// to the pools whose first user is a function of that package path prefix (attribution of a divergence to one module).
 	FreshPools bool
+	FreshOwner string
 
 	Deadlock bool
 	Steps    int
@@ -300,9 +304,38 @@ func (w *WaitGroup) Wait() {
 }
 
 type Pool struct {
-	New  func() any
-	free []any
-	reg  bool
+	New   func() any
+	free  []any
+	reg   bool
+	owner string // function that used the pool first
+}
+
+func (p *Pool) register() {
+	p.reg = true
+	pools = append(pools, p)
+	pc := make([]uintptr, 8)
+	n := runtime.Callers(3, pc)
+	fr := runtime.CallersFrames(pc[:n])
+	for {
+		f, more := fr.Next()
+		if !strings.Contains(f.Function, "verif/shim/vsync") {
+			p.owner = f.Function
+			break
+		}
+		if !more {
+			break
+		}
+	}
+}
+
+// PoolOwners lists the first user of every pool seen so far.
+func PoolOwners() []string {
+	var out []string
+	for _, p := range pools {
+		out = append(out, p.owner)
+	}
+	sort.Strings(out)
+	return out
 }
 
 var pools []*Pool
@@ -319,8 +352,7 @@ func PoolCount() int { return len(pools) }
 
 func (p *Pool) Get() any {
 	if !p.reg {
-		p.reg = true
-		pools = append(pools, p)
+		p.register()
 	}
 	point(unsafe.Pointer(p), "Pool.Get")
 	s := S
@@ -335,7 +367,7 @@ func (p *Pool) Get() any {
 			i := n - 1 - k
 			x := p.free[i]
 			p.free = append(p.free[:i], p.free[i+1:]...)
-			if s == nil || !s.FreshPools {
+			if s == nil || !s.FreshPools || (s.FreshOwner != "" && !strings.HasPrefix(p.owner, s.FreshOwner)) {
 				return x
 			}
 			// FreshPools: the same decision points are taken, but a new object is handed out (equally legal)
@@ -349,8 +381,7 @@ func (p *Pool) Get() any {
 
 func (p *Pool) Put(x any) {
 	if !p.reg {
-		p.reg = true
-		pools = append(pools, p)
+		p.register()
 	}
 	point(unsafe.Pointer(p), "Pool.Put")
 	p.free = append(p.free, x)
